@@ -13,6 +13,7 @@ from engine import statusmon as S
 from engine.statusmon import Mon
 
 LEVEL = "other"
+THOROUGH_VIEWS = ("cap=3",)   # anchored in the binary (main); this module already reads both the library's and the binary's copy where it matters
 ERRTY = "rules::errors::Error"
 
 
